@@ -728,20 +728,57 @@ theorem copy_is_independent (m m1 : Mach) (a a' : Nat) (h : copyRes m a = (m1, s
 /-- **a deep copy (or pickle round trip) of a result set** is a new object (the last one) that
     denotes the same results; every object that existed before is unchanged. -/
 theorem copy_of_result_set (m : Mach) (s : Nat) (x : Sim) (hx : m.sims[s]? = some x)
-    (hv : ∀ e ∈ x.dict, ValidEntry m e) (hnd : (x.dict.map (·.1)).Nodup) :
-    view (copySim m s) m.sims.length = view m s := by
-  have hs : s < m.sims.length := by
-    rcases Nat.lt_or_ge s m.sims.length with h | h
-    · exact h
-    · rw [List.getElem?_eq_none h] at hx; cases hx
-  simp only [copySim, hx]
-  set m1 : Mach := { m with sims := m.sims ++ [{ dict := [], params := x.params }] } with hm1
-  have hd1 : dictOf m1 m.sims.length = [] := by simp [dictOf, hm1]
-  rw [copyDict_view m.sims.length x.dict m1 (by simp [hm1]) (by rw [hd1]; intro e he; cases he)
-    (fun e he => hv e he) (by rw [hd1]; intro e _; rfl) hnd]
+    (hv : ∀ e ∈ x.dict, ValidEntry m e) :
+    view (copySim m s) m.sims.length = view m s
+      ∧ (∀ a, a < m.res.length → (copySim m s).res[a]? = m.res[a]?)
+      ∧ (∀ l, l < m.lists.length → (copySim m s).lists[l]? = m.lists[l]?)
+      ∧ (∀ j, j < m.sims.length → (copySim m s).sims[j]? = m.sims[j]?) := by
   have hxd : dictOf m s = x.dict := by simp [dictOf, hx]
-  simp only [view, hd1, List.map_nil, List.nil_append, hxd]
-  rfl
+  simp only [copySim, hx]
+  refine ⟨?_, fun a ha => List.getElem?_append_left ha, fun l hl => List.getElem?_append_left hl,
+    fun j hj => List.getElem?_append_left hj⟩
+  set olds := dedupNat ((x.dict.flatMap (fun e => listAt m e.2)).filter (· < m.res.length)) with holds
+  -- a copied element denotes the same result
+  have hcell : ∀ e ∈ x.dict, ∀ a ∈ listAt m e.2,
+      (m.res ++ olds.filterMap (fun a => m.res[a]?))[m.res.length + posOf a olds]? = m.res[a]? := by
+    intro e he a ha
+    have halt : a < m.res.length := (hv e he).2 a ha
+    have hmem : a ∈ olds := by
+      rw [holds, mem_dedupNat, List.mem_filter]
+      exact ⟨List.mem_flatMap.mpr ⟨e, he, ha⟩, by simpa using halt⟩
+    rw [List.getElem?_append_right (Nat.le_add_right _ _), Nat.add_sub_cancel_left,
+      getElem?_filterMap_of_isSome _ _ (fun b hb => by
+        have : b < m.res.length := by
+          have := (mem_dedupNat _ b).mp hb
+          simpa using (List.mem_filter.mp this).2
+        simp [List.getElem?_eq_getElem this]),
+      getElem?_posOf hmem]
+    rfl
+  apply List.ext_getElem?
+  intro i
+  simp only [view, dictOf, List.getElem?_append_right (Nat.le_refl _), Nat.sub_self, List.getElem?_cons_zero,
+    List.getElem?_map, hx]
+  cases hi : x.dict[i]? with
+  | none =>
+    have : x.dict.length ≤ i := by
+      rcases Nat.lt_or_ge i x.dict.length with h | h
+      · rw [List.getElem?_eq_getElem h] at hi; cases hi
+      · exact h
+    simp [List.getElem?_zipWith, List.getElem?_eq_none this]
+  | some e =>
+    have hilt : i < x.dict.length := by
+      rcases Nat.lt_or_ge i x.dict.length with h | h
+      · exact h
+      · rw [List.getElem?_eq_none h] at hi; cases hi
+    have he : e ∈ x.dict := List.mem_of_getElem? hi
+    simp only [List.getElem?_zipWith, List.getElem?_range hilt, hi, Option.map_some, Option.some.injEq,
+      Prod.mk.injEq, true_and]
+    simp only [viewList, listAt, List.getElem?_append_right (Nat.le_add_right _ _), Nat.add_sub_cancel_left,
+      List.getElem?_map, hi, Option.map_some, List.filterMap_map]
+    apply filterMap_congr'
+    intro a ha
+    have ha' : a ∈ listAt m e.2 := by simpa [listAt] using ha
+    exact hcell e he a ha'
 
 /-! ## the insertion order of the result names is not part of the value of a result set -/
 
